@@ -23,7 +23,7 @@ TEXTS = {
  },
  "C03": {
   "technique": "stateful property-based testing (rapid): generated session/transaction histories with fault injection; visibility and read-your-writes checked against shadow engines, snapshot immutability by byte-level re-dumps",
-  "level_text": "Generated histories over two sessions and a plain client with commit / abort / end / failing-store / panicking-callback decisions and snapshot-taking steps; the visible state, the in-transaction results and the post-commit state are compared with shadow engines seeded from the committed state, and every held snapshot is re-dumped after every step. Sampling, not proof.",
+  "level_text": "Generated histories over two sessions and a plain client with commit / abort / end / failing-store / panicking-callback decisions and snapshot-taking steps; the visible state, the in-transaction results and the post-commit state are compared with shadow engines seeded from the committed state, and every held snapshot is re-dumped after every step; a second sub-check takes the snapshots on a file-backed engine whose aged change log is trimmed by the following commits. Sampling, not proof.",
   "level_note": "One call at a time (the property's quantifier); the shadow engines use lungo's sequential behaviour, which C01 checks against the reference model.",
  },
  "C18": {
@@ -53,22 +53,22 @@ TEXTS = {
  },
  "C02": {
   "technique": "stateful property-based testing (rapid): generated API histories with failing writes; byte-level state-dump invariant and an item-by-item differential against a second engine",
-  "level_text": "Generated call histories biased towards writes that fail at the k-th matched document or k-th batch item, with a reference-free oracle over the complete exported state (documents, indexes and their order, change log): failing single calls change nothing, batches equal the one-by-one application of their succeeding items. Thousands (quick) to hundreds of thousands (thorough) of histories; sampling, not proof.",
+  "level_text": "Generated call histories biased towards writes that fail at the k-th matched document or k-th batch item, with a reference-free oracle over the complete exported state (documents, indexes and their order, change log): failing single calls change nothing, batches equal the one-by-one application of their succeeding items, commits whose Store call is made to fail and abandoned engine transactions vanish as a whole; a second sub-check runs session-transaction histories and decides the same for calls that fail inside a transaction (shadow-engine differential). Thousands (quick) to hundreds of thousands (thorough) of histories; sampling, not proof.",
   "level_note": "Observes state through the exported catalog; the batch oracle trusts lungo's single-item behaviour and its copy-on-write sharing (checked separately by C03).",
  },
  "C07": {
   "technique": "stateful property-based testing (rapid): generated histories over a collision-rich value pool; uniqueness invariant with an independent key extractor, exactness of rejections",
-  "level_text": "Generated histories of writes and index operations on colliding values; after every call an independent key extractor plus reference BSON equality checks that no two documents share a unique key or _id, and that inserts / unique index builds are rejected for uniqueness exactly when a collision exists. Sampling, not proof.",
+  "level_text": "Generated histories of writes and index operations on colliding values; after every call an independent key extractor plus reference BSON equality checks that no two documents share a unique key or _id, and that inserts / unique index builds are rejected for uniqueness exactly when a collision exists; rejected updates and replaces are confirmed by a reference model of the pre-state; two further sub-checks run the histories on the file store with reopen steps and decide multi-document key shifts against the reference model's final state. Sampling, not proof.",
   "level_note": "Trusts ref.IndexKeys / ref.Cmp / ref.Match; key paths crossing arrays that yield no value are outside the extractor's domain.",
  },
  "C08": {
   "technique": "stateful property-based testing (rapid): generated histories; change-log replay oracle, event-id monotonicity, update-description faithfulness; direct generated retention cases",
-  "level_text": "Generated histories whose change log is replayed step by step onto the previous contents and must reproduce the current contents exactly (order included), with structural checks on every event and a faithfulness check of every update description; retention is decided by a separate generated sub-check against the closed-form rule. Sampling, not proof.",
+  "level_text": "Generated histories whose change log is replayed step by step onto the previous contents and must reproduce the current contents exactly (order included), with structural checks on every event and a faithfulness check of every update description; the histories include expiry passes, abandoned engine transactions and commits whose Store call fails; retention is decided by a separate generated sub-check against the closed-form rule, and the session histories decide that failing calls inside transactions leave no pending event. Sampling, not proof.",
   "level_note": "Real-time ageing is simulated by rewriting event timestamps; update descriptions are applied with the reference path setter.",
  },
  "C15": {
   "technique": "stateful property-based testing (rapid): generated CRUD + index-management histories; index/collection coherence invariant and rebuild equivalence after every call",
-  "level_text": "Generated histories with the index-coherence invariant checked on the exported catalog after every call (membership by identity, order, rebuild equivalence, Has agreement) and a small model for the management clauses (same definition no-op, conflicts rejected, _id index never dropped). Sampling, not proof.",
+  "level_text": "Generated histories with the index-coherence invariant checked on the exported catalog after every call (membership by identity, order, rebuild equivalence, Has agreement) and a small model for the management clauses (same definition no-op, conflicts rejected, _id index never dropped); a second sub-check runs the histories on the file store with reopen steps (definitions survive, reloaded indexes coherent). Sampling, not proof.",
   "level_note": "Coherence is judged with lungo's own matcher for partial filters; reopening from a file is covered by C06.",
  },
  "C17": {
